@@ -287,11 +287,16 @@ class NamesValidityChecker(CachedWalkMapper[[]]):
                             f"named '{expr.name}'.")
 
 
-def check_validity_of_outputs(exprs: DictOfNamedArrays) -> None:
+def check_validity_of_outputs(exprs: DictOfNamedArrays) -> frozenset[str]:
+    """
+    Returns the names of the named inputs of *exprs*.
+    """
     name_validation_mapper = NamesValidityChecker()
 
     for ary in exprs.values():
         name_validation_mapper(ary)
+
+    return frozenset(name_validation_mapper.name_to_input)
 
 # }}}
 
@@ -308,7 +313,7 @@ def preprocess(outputs: DictOfNamedArrays, target: Target) -> PreprocessResult:
     from pytato.transform import copy_dict_of_named_arrays
     from pytato.transform.calls import inline_calls
 
-    check_validity_of_outputs(outputs)
+    input_names = check_validity_of_outputs(outputs)
 
     # {{{ compute the order in which the outputs must be computed
 
@@ -338,6 +343,10 @@ def preprocess(outputs: DictOfNamedArrays, target: Target) -> PreprocessResult:
     assert isinstance(new_outputs, DictOfNamedArrays)
 
     mapper = CodeGenPreprocessor(target)
+    # names generated for data wrappers and unnamed placeholders must not
+    # collide with the names chosen by the user
+    mapper.var_name_gen.add_names(input_names | frozenset(outputs.keys()),
+                                  conflicting_ok=True)
     new_outputs = copy_dict_of_named_arrays(new_outputs, mapper)
 
     return PreprocessResult(outputs=new_outputs,
